@@ -124,10 +124,15 @@ pub fn hunt<S: MlDsa>(seed: u64, nsign: usize, nfull: usize, out: &mut Out) {
     let t0_start = 128 + (S::L + S::K) * 32 * vh::bit_length(2 * S::ETA);
     for x in skb1[t0_start..t0_start + 416].iter_mut() { *x = 0; }
     let sk1 = S::sk_from(&skb1).expect("accepted");
+    // third key: first t0 polynomial at the upper end and ALL OTHER t0 polynomials zero (field value 2^12): few hints outside the
+    // first polynomial, so attempts whose ||c t0|| is around gamma2 are not masked by the hint-weight rejection
+    let mut skb2 = skb1.clone();
+    for i in 256..S::K * 256 { let bit = t0_start * 8 + i * 13; for t in 0..13 { let (by, bi) = ((bit + t) / 8, (bit + t) % 8); skb2[by] = (skb2[by] & !(1 << bi)) | ((((4096u32 >> t) & 1) as u8) << bi); } }
+    let sk2 = S::sk_from(&skb2).expect("accepted");
     let (e1, e2) = (S::GAMMA1 - S::beta(), S::GAMMA2 - S::beta());
     let mut rare: Vec<(i64, Vec<u8>, [u8; 32], Vec<u8>, usize, u32)> = vec![];
     for i in 0..nsign {
-        let (sk, skb) = if i % 2 == 1 { (&sk1, &skb1) } else { (&sk0, &skb0) };
+        let (sk, skb) = match i % 4 { 1 => (&sk1, &skb1), 3 => (&sk2, &skb2), _ => (&sk0, &skb0) };
         let mp = p.bytes(8 + (i % 40));
         let rnd = p.arr32();
         vh::trace_start();
